@@ -57,14 +57,14 @@ PROPS = {
     "C13": {
         "coq_targets": ["Props/C13.v", "Run/C13.v"],
         "audit": "Audit/C13.v",
-        "gen": ["Gen/RelPairTable.v", "Gen/RelTsSetTable.v"],
+        "gen": ["Gen/RelPairTable.v", "Gen/RelTsSetTable.v", "Gen/RelSetTables.v"],
         "classes": {},
         "assumptions": [
             "text selections handed to the tests come from the API, hence are well-formed (begin <= end) and carry the handle of the known selection with the same range, if any",
             "the whitespace test of Precedes/Succeeds is char::is_whitespace on the gap; the model receives it as a flag per codepoint",
         ],
-        "level_text": "Unbounded Coq theorems over the model of the four TestTextSelection implementations: model = documented interval/min-max meaning for every pair and every pair of sets, every operator and modifier (C13_pair_spec, C13_*_set_spec), the interval definitions, converse, symmetry, implication, complement and singleton laws, intersection; the pair test is additionally tied to the source by a translator: tools/translate_relpair.py reads the match arms of `impl TestTextSelection for TextSelection { fn test }` (patterns and bodies as expression trees) into Gen/RelPairTable.v on every run, and C13_code_pair_test_is_the_model proves that this table, evaluated as Rust evaluates it (first matching arm, short-circuit && / ||, checked usize subtraction), is the model's test_pair for every operator, modifier combination, text and pair of selections, with no subtraction underflowing; tools/translate_relset.py does the same for the test of one selection against a set (`fn test_set` of the same impl: the any / all loops over the pair test, the emptiness guard, the folded minimum / maximum, the negation arm; C13_code_ts_set_test_is_the_model, for sets of any size); the whole model (pair and set tests) is tied to the code by an exhaustive small-scope correspondence run (all pairs over positions 0..7, all sets of size <=2, every operator/modifier) plus seeded random sets, evaluated on the extracted model and on the real library through the public API.",
-        "level_note": "Trusted: Coq kernel, extraction (ExtrOcamlBasic), OCaml driver, Rust harness, the hand transcription Model/Rel.v (the pair test re-derived from the source by tools/translate_relpair.py and proved equal on every run; the selection-against-set test likewise by tools/translate_relset.py; the two tests of TextSelectionSet and leftmost / rightmost checked by execution only), the translator itself (a parser for the expression subset the pair test uses; anything else stops it), slice sort/binary_search. Print Assumptions: closed under the global context for all property theorems. Well-formedness (begin<=end) and handle coherence of API-produced selections are hypotheses.",
+        "level_text": "Unbounded Coq theorems over the model of the four TestTextSelection implementations: model = documented interval/min-max meaning for every pair and every pair of sets, every operator and modifier (C13_pair_spec, C13_*_set_spec), the interval definitions, converse, symmetry, implication, complement and singleton laws, intersection; the pair test is additionally tied to the source by a translator: tools/translate_relpair.py reads the match arms of `impl TestTextSelection for TextSelection { fn test }` (patterns and bodies as expression trees) into Gen/RelPairTable.v on every run, and C13_code_pair_test_is_the_model proves that this table, evaluated as Rust evaluates it (first matching arm, short-circuit && / ||, checked usize subtraction), is the model's test_pair for every operator, modifier combination, text and pair of selections, with no subtraction underflowing; tools/translate_relset.py does the same for the test of one selection against a set (`fn test_set` of the same impl: the any / all loops over the pair test, the emptiness guard, the folded minimum / maximum, the negation arm; C13_code_ts_set_test_is_the_model, for sets of any size), and tools/translate_relsets.py for the two tests of TextSelectionSet (C13_code_set_ts_test_is_the_model, C13_code_set_set_test_is_the_model): every arm of every relation test of src/textselection.rs is read from the source on every run; the whole model (pair and set tests) is tied to the code by an exhaustive small-scope correspondence run (all pairs over positions 0..7, all sets of size <=2, every operator/modifier) plus seeded random sets, evaluated on the extracted model and on the real library through the public API.",
+        "level_note": "Trusted: Coq kernel, extraction (ExtrOcamlBasic), OCaml driver, Rust harness, the hand transcription Model/Rel.v (the pair test re-derived from the source by tools/translate_relpair.py and proved equal on every run; the selection-against-set test and the two tests of TextSelectionSet likewise by tools/translate_relset.py and tools/translate_relsets.py (loops and delegations are recognised as fixed statement forms, not compiled); leftmost / rightmost / begin / end of a set and the API wrappers checked by execution only), the translator itself (a parser for the expression subset the pair test uses; anything else stops it), slice sort/binary_search. Print Assumptions: closed under the global context for all property theorems. Well-formedness (begin<=end) and handle coherence of API-produced selections are hypotheses.",
         "trusted": ["smallvec / slice::sort_unstable and binary_search (TextSelectionSet::sort/add are not modelled; the harness reads the set back after construction)"],
     },
 }
